@@ -90,7 +90,7 @@ def cc_body(k: str, v: str = "d", w: str = "e") -> str:
     app = context.get_current_app()
     inv = context.get_dist_invocation_context(app.app_id)
     gate = CC_GATES.setdefault(inv.invocation_id, threading.Event())
-    gate.wait(30)
+    gate.wait(3600)      # released by the harness only (a shorter timeout let bodies finish on their own in long thorough runs)
     gate.clear()
     if CC_FAIL.pop(inv.invocation_id, None) == "retry":
         raise RetryError("again")
